@@ -173,9 +173,9 @@ M = [
     ("reg-setext-min", "pixman/pixman-region.c", "pixman_set_extents", "if (box->x1 < region->extents.x1)", "if (box->x1 > region->extents.x1)", 0),
     ("reg-setext-max", "pixman/pixman-region.c", "pixman_set_extents", "region->extents.x2 = box->x2;", "region->extents.x2 = box->x1;", 0),
     ("reg-setext-end", "pixman/pixman-region.c", "pixman_set_extents", "while (box <= box_end)", "while (box < box_end)", 0),
-    ("reg-coal-cmp", "pixman/pixman-region.c", "pixman_coalesce", "(prev_box->x2 != cur_box->x2)", "(prev_box->x2 != cur_box->x1)", 0),
-    ("reg-coal-count", "pixman/pixman-region.c", "pixman_coalesce", "cur_box++;\n\tnumRects--;", "cur_box++;\n\tnumRects++;", 0),
-    ("reg-coal-merge", "pixman/pixman-region.c", "pixman_coalesce", "prev_box->y2 = y2;", "prev_box->y1 = y2;", 0),
+    ("reg-coal-cmp", "pixman/pixman-region.c", None, "(prev_box->x2 != cur_box->x2)", "(prev_box->x2 != cur_box->x1)", 0),
+    ("reg-coal-count", "pixman/pixman-region.c", None, "cur_box++;\n\tnumRects--;", "cur_box++;\n\tnumRects++;", 0),
+    ("reg-coal-merge", "pixman/pixman-region.c", None, "prev_box->y2 = y2;", "prev_box->y1 = y2;", 0),
     ("seed-C07-m3", "patch", "seeded/C07-m3/patch.diff", "", "", 0),
     ("seed-C06-m4", "patch", "seeded/C06-m4/patch.diff", "", "", 0),
     # ---- fail closed: constructs outside the accepted subset
